@@ -55,3 +55,15 @@ From KV Require Import StateGen StateBase StatePitchProofs StateExportProofs.
 Theorem C10_state_as_modelled : state_pitch = modelled_state_pitch /\ state_export = modelled_state_export.
 Proof. exact (conj state_pitch_as_modelled state_export_as_modelled). Qed.
 Print Assumptions C10_state_as_modelled.
+
+(* document level, "each converted under the clef in force for that note": for EVERY text that imports, the clef the
+   exporter hands to the agnostic conversion of a node (the "ClefToken" entry of its signature dictionary) is the
+   NEAREST clef cell above it on its spine path - through splits and joins, up to the header - and there is none
+   exactly when that path holds no clef cell *)
+From KV Require Import Token Importer Exporter TreeProofs SigForceProofs.
+Theorem C10_clef_in_force_is_nearest_above : forall bad text d, loads bad text = IOk d ->
+  forall i, (i < List.length (d_nodes d))%nat -> forall cid,
+  assoc_str "ClefToken" (n_sigs (get_node d i)) = Some cid <->
+  (0 < cid /\ clear_path d "ClefToken" cid i /\ exists t, n_tok (get_node d cid) = Some t /\ is_sig_of "ClefToken" t = true)%nat.
+Proof. intros bad text d H i Hi cid. exact (loads_sig_in_force bad text d H i Hi "ClefToken"%string cid). Qed.
+Print Assumptions C10_clef_in_force_is_nearest_above.
